@@ -50,21 +50,47 @@ VerifySig(pk, m, s) ==
 (*         \0NEXTKEY\0 key [\0PREVSIG\0 prev] [\0EXTERNALSIG\0 ext]        *)
 (*  ext  : \0EXTERNAL\0 \0VERSION\0 ver \0PAYLOAD\0 payload \0PREVSIG\0 p  *)
 (*  seal : payload ++ alg ++ next key ++ signature (of the last block)     *)
+(*  ext0 : payload ++ alg ++ key of the block signer  (the DEPRECATED external*)
+(*         signature layout, only accepted by unsafe_deprecated_deserialize)*)
+(*                                                                         *)
+(* The v0 layout has no delimiter between the payload and the external     *)
+(* signature: what is signed is the FLAT sequence of byte chunks, not the  *)
+(* (payload, signature) pair.  `body` is that sequence for v0 messages     *)
+(* (and <<>> for every other layout, whose fields are delimited).          *)
 (***************************************************************************)
-Msg(tag, ver, payload, nk, prev, ext) ==
+MsgB(tag, ver, payload, nk, prev, ext, body) ==
     [tag |-> tag, ver |-> ver, payload |-> payload, nk |-> nk,
-     prev |-> prev, ext |-> ext]
+     prev |-> prev, ext |-> ext, body |-> body]
+Msg(tag, ver, payload, nk, prev, ext) == MsgB(tag, ver, payload, nk, prev, ext, <<>>)
 
 ExtSigSeq(ext) == IF ext = <<>> THEN <<>> ELSE <<ext[1].sig>>
 
+\* payloads whose bytes are another payload's bytes followed by one more chunk
+\* (protobuf: the same block with one more field at the end)
+Split == [P12 |-> <<"P1", "X2">>]
+Parts(p) == IF p \in DOMAIN Split THEN Split[p] ELSE <<p>>
+
+\* bytes that are NOT a signature (the chunk x) sitting in a signature field
+RawSig(x) == [signer |-> [id |-> "none", alg |-> "none"], msg |-> Msg("raw", 0, x, [id |-> "none", alg |-> "none"], <<>>, <<>>), form |-> 0]
+IsRaw(s) == s.msg.tag = "raw"
+
+PartChunk(x) == [part |-> x]
+SigChunk(s)  == IF IsRaw(s) THEN [part |-> s.msg.payload] ELSE [sig |-> s]
+V0Body(p, ext) ==
+    [i \in 1..Len(Parts(p)) |-> PartChunk(Parts(p)[i])]
+    \o (IF ext = <<>> THEN <<>> ELSE <<SigChunk(ext[1].sig)>>)
+
 BlockMsgOf(ver, p, nk, ext, prevSeq) ==
     IF ver = 0
-    THEN Msg("v0", 0, p, nk, <<>>, ExtSigSeq(ext))
+    THEN MsgB("v0", 0, "-", nk, <<>>, <<>>, V0Body(p, ext))
     ELSE Msg("v1", ver, p, nk, prevSeq, ExtSigSeq(ext))
 
 BlockMsg(b, prevSeq) == BlockMsgOf(b.ver, b.payload, b.nk, b.ext, prevSeq)
 
 ExtMsg(ver, payload, prevSeq) == Msg("ext", ver, payload, NoKey, prevSeq, <<>>)
+
+\* deprecated external signature: binds the payload to the KEY that signs the block, not to the previous signature
+ExtMsgLegacy(payload, signerKey) == Msg("ext0", 0, payload, signerKey, <<>>, <<>>)
 
 SealMsg(b) == Msg("seal", 0, b.payload, b.nk, <<b.sig>>, <<>>)
 
@@ -111,6 +137,40 @@ Verify(t, root) ==
     /\ Len(t.blocks) >= 1
     /\ \A i \in 1..Len(t.blocks) : BlockOK(t, root, i)
     /\ ProofOK(t)
+
+(***************************************************************************)
+(* Acceptance modes.  Besides the standard entry points the library keeps  *)
+(* two that admit the deprecated third-party layout:                       *)
+(*   "std"    Biscuit::from, UnverifiedBiscuit::from + verify              *)
+(*   "legacy" Biscuit::unsafe_deprecated_deserialize                       *)
+(*            (a version-0 block may carry an external signature, which is *)
+(*            then checked with the deprecated layout)                     *)
+(*   "mixed"  UnverifiedBiscuit::unsafe_deprecated_deserialize + verify    *)
+(*            (decoded like "legacy", verified like "std")                 *)
+(* In every mode an external signature that is present MUST verify.        *)
+(***************************************************************************)
+Modes == {"std", "legacy", "mixed"}
+
+BlockOKMode(t, root, i, mode) ==
+    LET b == t.blocks[i] IN
+    /\ b.ver \in {0, 1}
+    /\ (i = 1) => b.ext = <<>>
+    /\ (mode = "std" /\ b.ext # <<>>) => b.ver = 1
+    /\ VerifySig(SignerOf(t, root, i), BlockMsg(b, PrevSeq(t, i)), b.sig)
+    /\ b.ext # <<>> =>
+          VerifySig(b.ext[1].key,
+                    IF b.ver = 0 /\ mode = "legacy"
+                    THEN ExtMsgLegacy(b.payload, SignerOf(t, root, i))
+                    ELSE ExtMsg(b.ver, b.payload, PrevSeq(t, i)),
+                    b.ext[1].sig)
+
+VerifyMode(t, root, mode) ==
+    /\ Len(t.blocks) >= 1
+    /\ \A i \in 1..Len(t.blocks) : BlockOKMode(t, root, i, mode)
+    /\ ProofOK(t)
+
+\* the standard mode is the one the rest of the specification talks about
+StdIsVerify(t, root) == VerifyMode(t, root, "std") = Verify(t, root)
 
 (***************************************************************************)
 (* Signature version rule (chained scheme = 1) and honest operations.      *)
